@@ -13,6 +13,7 @@ TRUSTED = ["Lean 4.33.0 kernel (lake build); thorough tier additionally leanchec
 def lean_stage(ctx, prop_mod, extra_targets=()):
     """lake build + audit.  Returns True when every obligation of the property is discharged.
     On failure the caller runs its failing-input search and finally reports no-failing-input-found."""
+    ctx.translator_errors = build.generate()
     ok, log = leanb.lake_build([prop_mod, "psymodel"] + list(extra_targets))
     ctx.cov["trusted_base"] = list(TRUSTED)
     if not ok:
